@@ -2,7 +2,7 @@
 import ast
 
 from ..absint import Interp
-from ..astutil import inline_temporaries, FuncTree, dominates
+from ..astutil import inline_temporaries, nest_guard_clauses, FuncTree, dominates
 from ..common import norm_stmt, site_id
 from ..deps import names_in, base_name, index_names, dep_edges, closure
 from ..effects import writes
@@ -293,12 +293,39 @@ def stale_loop_vars(fnode):
 
 
 class MustUpdate(MustAnalysis):
-    def __init__(self, fnode, loop, var, indicators):
+    """Every path through one iteration of `loop` redefines `var` from its previous value (and the
+    grant indicator).  For an estimate that is only ever advanced by `var += <indicator>` a path on
+    which definitely nothing was granted may skip the update (adding a false indicator is the
+    identity): token "nogrant" holds at the start of an iteration and is killed by every grant."""
+
+    def __init__(self, fnode, loop, var, indicators, grants=()):
         super().__init__(fnode)
         self.loop = loop
         self.var = var
         self.indicators = indicators
         self.missing = None
+        self.grants = set(map(id, grants))
+        ups = [n for n in ast.walk(loop) if (isinstance(n, ast.AugAssign) and isinstance(n.target, ast.Name)
+                                              and n.target.id == var)
+               or (isinstance(n, ast.Assign) and any(isinstance(t, ast.Name) and t.id == var for t in n.targets))]
+        self.additive = bool(ups) and indicators is not None and bool(self.grants) and all(
+            isinstance(n, ast.AugAssign) and isinstance(n.op, ast.Add) and isinstance(n.value, ast.Name)
+            and n.value.id in indicators for n in ups)
+        self.add_names = {n.value.id for n in ups if isinstance(n, ast.AugAssign) and isinstance(n.value, ast.Name)}
+
+    def loop_iter_gen(self, loop):
+        return ("nogrant",) if loop is self.loop else ()
+
+    def kill_tokens(self, stmt):
+        if id(stmt) in self.grants:
+            return ("nogrant",)
+        # a (re)definition of the indicator itself may be the grant decision
+        if self.indicators and isinstance(stmt, (ast.Assign, ast.AugAssign)):
+            tg = stmt.targets if isinstance(stmt, ast.Assign) else [stmt.target]
+            if any(isinstance(t, ast.Name) and t.id in self.add_names for t in tg) and not (
+                    isinstance(stmt, ast.Assign) and isinstance(stmt.value, ast.Constant) and stmt.value.value is False):
+                return ("nogrant",)
+        return ()
 
     def gen(self, stmt):
         if isinstance(stmt, ast.AugAssign) and isinstance(stmt.target, ast.Name) and stmt.target.id == self.var:
@@ -317,7 +344,8 @@ class MustUpdate(MustAnalysis):
 
     def on_loop_body_exit(self, loop, states_in, states_out):
         if loop is self.loop:
-            self.missing = [s for s in states_out if "upd" not in s.tokens]
+            self.missing = [s for s in states_out if "upd" not in s.tokens
+                            and not (self.additive and "nogrant" in s.tokens)]
 
 
 VALUE_REDUCTIONS = {"sum", "count_nonzero", "any", "all", "mean", "max", "min", "prod", "nansum", "cumsum"}
@@ -477,9 +505,9 @@ def run(p, report, tier):
                 if isinstance(n, ast.Attribute) and isinstance(n.ctx, ast.Store) and isinstance(n.value, ast.Name) \
                         and n.value.id == "self":
                     committed.add(n.attr)
-        fnode = inline_temporaries(f.node, keep=lambda a, committed=committed: isinstance(a.value, ast.Attribute)
-                                   and isinstance(a.value.value, ast.Name) and a.value.value.id == "self"
-                                   and a.value.attr in committed)
+        fnode = nest_guard_clauses(inline_temporaries(
+            f.node, keep=lambda a, committed=committed: isinstance(a.value, ast.Attribute)
+            and isinstance(a.value.value, ast.Name) and a.value.value.id == "self" and a.value.attr in committed))
         L = instance_loop(fnode)
         if L is None:
             report.add("R4.1", ent, "per-instance loop", f"{f.file}:{fnode.lineno}", False,
@@ -541,7 +569,7 @@ def run(p, report, tier):
                     is_counter = True
             if is_counter:
                 counters.add(v)
-            mu = MustUpdate(fnode, L, v, None if is_counter else indicators).run()
+            mu = MustUpdate(fnode, L, v, None if is_counter else indicators, grants=[s_ for _k, s_, _b in gr]).run()
             ok = mu.missing is not None and not mu.missing
             report.add("R4.3", ent, f"running estimate `{v}` (seeded from self.{attr}) advanced every iteration",
                        f"{f.file}:{L.lineno}", ok,
